@@ -187,6 +187,11 @@ func C05Build(c C05Case) *C05Blob {
 		case "e":
 			te.Mode, te.UID = 0o600, 1
 			te.Xattrs = map[string][]byte{"k1": {}, "k2": {}}
+		default: // "t...": nothing but a modification time (extremes; see MTimeOf in Toc.tla)
+			te.ModTime3339 = map[string]string{
+				"t1600": "1600-01-01T00:00:00Z", "t1677": "1677-09-21T00:00:00Z", "t2263": "2263-01-01T00:00:00Z",
+				"t2500": "2500-06-15T12:00:00Z", "t2999": "2999-12-31T23:59:59Z", "tz9": "2020-01-02T12:04:05+09:00",
+				"tsub": "2020-01-02T03:04:05.123456789Z", "t0001": "0001-01-01T00:00:00Z"}[e.At]
 		}
 		switch e.T {
 		case "symlink":
@@ -298,7 +303,7 @@ type c05Node struct {
 	Link  string     `json:"link"`
 	Maj   int        `json:"maj"`
 	Min   int        `json:"min"`
-	Mtime int64      `json:"mtime"`
+	Mt    string     `json:"mt"`
 	Xa    [][]string `json:"xa"`
 	Same  []string   `json:"same"`
 	Kids  []string   `json:"kids"`
@@ -377,7 +382,7 @@ func c05AttrInto(n *c05Node, a Attr) {
 		n.NLink = 1 // documented convention (estargz.TOCEntry.NumLink, fs/layer/node.go): zero means one name
 	}
 	if !a.ModTime.IsZero() {
-		n.Mtime = a.ModTime.Unix()
+		n.Mt = a.ModTime.UTC().Format(time.RFC3339Nano)
 	}
 	n.Xa = [][]string{}
 	for k, v := range a.Xattrs {
@@ -1083,4 +1088,82 @@ func C04Parent(childTest string) error {
 	b, _ := json.Marshal(map[string]any{"case": 0, "ep": "driver", "out": "ok", "msg": fmt.Sprintf("skipped=%d", skipped)})
 	out.Write(append(b, '\n'))
 	return out.Close()
+}
+
+// ============================================================================================== C05 clone-early
+// BigToc(n) (Toc.tla): one directory "big" with n empty regular files. Clone is called immediately after NewReader
+// returned - the bolt store may still be parsing the TOC in the background - and the CLONE is walked.
+
+type C05Early struct {
+	Open     string `json:"open"`
+	Clone    string `json:"clone"`
+	RootKids int    `json:"rootkids"`
+	BigKids  int    `json:"bigkids"`
+	Nodes    int    `json:"nodes"`
+}
+
+func c05BigBlob(n int) []byte {
+	entries := []*estargz.TOCEntry{{Name: "big/", Type: "dir", Mode: 0o755}}
+	for k := 0; k < n; k++ {
+		entries = append(entries, &estargz.TOCEntry{Name: fmt.Sprintf("big/f%05d", k), Type: "reg", Mode: 0o644})
+	}
+	js, _ := json.Marshal(&estargz.JTOC{Version: 1, Entries: entries})
+	var blob bytes.Buffer
+	blob.Write(c05Gzip([]byte("tar headers live here")))
+	tocOff := int64(blob.Len())
+	blob.Write(C05TocMember(js, 0))
+	blob.Write(C05Footer(tocOff))
+	return blob.Bytes()
+}
+
+// C05CloneEarly: reps times NewReader -> Clone at once -> walk of the clone; one ndjson line per repetition.
+func C05CloneEarly(storeName string, store Store) error {
+	n, _ := strconv.Atoi(os.Getenv("VERIF_C05_BIG"))
+	reps, _ := strconv.Atoi(os.Getenv("VERIF_C05_REPS"))
+	if n <= 0 {
+		n = 5000
+	}
+	if reps <= 0 {
+		reps = 3
+	}
+	data := c05BigBlob(n)
+	f, err := os.Create(os.Getenv("VERIF_OUT") + "_early_" + storeName + ".ndjson")
+	if err != nil {
+		return err
+	}
+	defer f.Close()
+	for rep := 1; rep <= reps; rep++ {
+		e := C05Early{Open: "ok", Clone: "ok"}
+		r, err := store(io.NewSectionReader(bytes.NewReader(data), 0, int64(len(data))))
+		if err != nil {
+			e.Open, e.Clone = "err", "-"
+		} else {
+			c, err := r.Clone(io.NewSectionReader(bytes.NewReader(data), 0, int64(len(data))))
+			if err != nil {
+				e.Clone = "err"
+			} else {
+				e.Nodes = 1
+				var big uint32
+				if err := c.ForeachChild(c.RootID(), func(name string, id uint32, mode os.FileMode) bool {
+					e.RootKids++
+					e.Nodes++
+					if name == "big" {
+						big = id
+					}
+					return true
+				}); err != nil {
+					e.Clone = "walk-err"
+				}
+				if big != 0 {
+					if err := c.ForeachChild(big, func(string, uint32, os.FileMode) bool { e.BigKids++; e.Nodes++; return true }); err != nil {
+						e.Clone = "walk-err"
+					}
+				}
+			}
+			r.Close()
+		}
+		line, _ := json.Marshal(map[string]any{"store": storeName, "n": n, "rep": rep, "early": e})
+		f.Write(append(line, '\n'))
+	}
+	return nil
 }
